@@ -185,7 +185,11 @@ def handleOne (entry : String) (j : Json) : Except String Json := do
     let eager := match erbCallList st fs hz with
       | .ok vs => Json.mkObj [("values", fls vs)]
       | .error _ => Json.mkObj [("err", Json.str "ValueError")]
-    pure <| Json.mkObj [("eager", eager), ("lazy", arr erbJson (erbCallLazy st fs hz))]
+    let readJson (r : Option (Except Unit Float)) : Json := match r with
+      | none => Json.mkObj [("stop", Json.bool true)]
+      | some r => erbJson r
+    pure <| Json.mkObj [("eager", eager), ("lazy", arr erbJson (erbCallLazy st fs hz)),
+                        ("reads", arr readJson (erbLazyReads st fs hz (fs.length + 2)))]
   | "erb_constants" =>
     let n ← getNat (← field j "n")
     let r : Float × Float := gammatoneErbConstants n
